@@ -40,10 +40,12 @@ TRUSTED = [
 ]
 ASSUMPTIONS = [
     "ids passed to the storage are the strings it handed out or strings of the same shape ('n', 'n.m'); keys are str; values are None/int/str/list/tuple/dict trees (what pickle and deepcopy treat structurally)",
-    "load_jobs / load_search_value / load_out_from_all_jobs / load_metadata_from_all_jobs return live references on MemoryStorage (by reading); the property only names load_job / load_search as snapshots, so only those are re-compared",
+    "aliasing is judged strictly (streams aliasing_store / aliasing_load / through_evaluator): an object handed to store_* or obtained from ANY load may be edited by the caller afterwards without changing what is stored - the property text names load_job / load_search; for the other loads and for the store side this is what 'returns the last value stored' and 'SharedMemoryStorage gives the same answers' require once the caller's edits are part of the history (findings F78 / F79)",
+    "keys are str, None or int (no bool: True == 1 as a dictionary key); integer keys are not used with store_job_metadata (a metadata slot replaced by a list would be indexed by them)",
     "concurrency: each client operation is atomic on the server (GIL + certificate); real OS schedules are sampled, not enumerated - the Coq theorem C13_interleaving covers every schedule of atomic operations",
 ]
-RULE = ("exhaustive: every history of length L (4 quick / 5 thorough; all shorter ones are its prefixes) over a fixed 18-operation alphabet (2 searches x 3 jobs x 2 keys) with a full audit after every step, in batches of 18^(L-2); "
+RULE = ("values include None/0/False/''/[]/{}/-0.0/nan/inf/2**70/numpy scalars and arrays/dicts with None, '' and integer keys; "
+        "exhaustive: every history of length L (4 quick / 5 thorough; all shorter ones are its prefixes) over a fixed 18-operation alphabet (2 searches x 3 jobs x 2 keys) with a full audit after every step, in batches of 18^(L-2); "
         "random: generated histories (length <= 60 quick / 200 thorough) over all 17 public methods, valid and invalid ids, nested mutable values; "
         "non-trivial = at least one successful store followed by a load of the same job, or an error answer")
 
@@ -66,6 +68,10 @@ class Tokens:
         self.extra = 100000
 
     def tok(self, s):
+        if s is None:  # keys are Hashable: None and integers are legal keys too (bools are avoided: True == 1 as a dict key)
+            return 199999
+        if isinstance(s, int) and not isinstance(s, bool):
+            return 200000 + 2 * abs(s) + (1 if s < 0 else 0)
         if s not in self.t:
             self.t[s] = self.extra
             self.extra += 1
@@ -85,13 +91,30 @@ def strings_of(x, acc):
     return acc
 
 
+def keyable(k):
+    return k is None or isinstance(k, str) or (isinstance(k, int) and not isinstance(k, bool))
+
+
 def mk(j):
-    """JSON description -> a FRESH python object ({'$t': [...]} is a tuple)."""
+    """JSON description -> a FRESH python object.  {'$t': [...]} tuple, {'$f': hex} float, {'$d': [[k, v], ...]} dict with
+    keys of any kind, {'$np': [dtype, nested list]} numpy array, {'$nps': [dtype, value]} numpy scalar."""
     if isinstance(j, list):
         return [mk(x) for x in j]
     if isinstance(j, dict):
         if set(j) == {"$t"}:
             return tuple(mk(x) for x in j["$t"])
+        if set(j) == {"$f"}:
+            return float.fromhex(j["$f"]) if j["$f"] not in ("nan", "inf", "-inf") else float(j["$f"])
+        if set(j) == {"$d"}:
+            return {mk(k): mk(v) for k, v in j["$d"]}
+        if set(j) == {"$np"}:
+            import numpy as np
+
+            return np.array(j["$np"][1], dtype=j["$np"][0])
+        if set(j) == {"$nps"}:
+            import numpy as np
+
+            return np.dtype(j["$nps"][0]).type(j["$nps"][1])
         return {k: mk(v) for k, v in j.items()}
     return j
 
@@ -100,10 +123,21 @@ def enc_val(x, T):
     """python value -> canonical flat list of integers (opaque to the model)."""
     if x is None:
         return [0]
+    if type(x).__module__ == "numpy":  # before float / int: numpy scalars subclass them; the kind of number is part of the value
+        import numpy as np
+
+        if isinstance(x, np.ndarray):
+            return [8, T.tok(str(x.dtype)), x.ndim] + list(x.shape) + enc_val(x.tolist(), T)
+        if isinstance(x, np.generic):
+            return [9, T.tok(str(x.dtype))] + enc_val(x.item(), T)
     if isinstance(x, bool):
         return [6, int(x)]
     if isinstance(x, int):
         return [1, x]
+    if isinstance(x, float):
+        import struct
+
+        return [7, struct.unpack("<q", struct.pack("<d", x))[0]]
     if isinstance(x, str):
         return [2, T.tok(x)]
     if isinstance(x, list) or isinstance(x, tuple):
@@ -114,7 +148,7 @@ def enc_val(x, T):
     if isinstance(x, dict):
         items = []
         for k, v in x.items():
-            if not isinstance(k, str):
+            if not keyable(k):
                 return [99, 1]
             items.append((T.tok(k), enc_val(v, T)))
         items.sort()
@@ -126,7 +160,7 @@ def enc_val(x, T):
 
 
 def enc_fval(x, T):
-    if isinstance(x, dict) and all(isinstance(k, str) for k in x):
+    if isinstance(x, dict) and all(keyable(k) for k in x):
         return [1, [[T.tok(k), enc_val(v, T)] for k, v in x.items()]]
     return [0, enc_val(x, T)]
 
@@ -134,7 +168,7 @@ def enc_fval(x, T):
 def enc_rec(d, T):
     if not isinstance(d, dict):
         return [[-1, [0, [99, 2]]]]
-    return [[T.tok(k) if isinstance(k, str) else -2, enc_fval(v, T)] for k, v in d.items()]
+    return [[T.tok(k) if keyable(k) else -2, enc_fval(v, T)] for k, v in d.items()]
 
 
 def sid_str(s):
@@ -207,20 +241,36 @@ def op_data(o, T):
     raise ValueError(n)
 
 
-def apply_op(st, o, T, keep=None):
-    """Runs one JSON op on a storage; returns the output in the model's encoding (Entry.v e_out)."""
+NONMODEL = ("scribble", "edit_stored", "edit_loaded", "repickle")  # harness actions, not storage operations
+
+
+def apply_op(st, o, T, keep=None, handed=None, keep2=None):
+    """Runs one JSON op on a storage; returns the output in the model's encoding (Entry.v e_out).
+    keep: objects returned by load_job / load_search; keep2: objects returned by the other loads; handed: objects given to stores."""
     n = o[0]
+
+    def give(j):
+        x = mk(j)
+        if handed is not None:
+            handed.append(x)
+        return x
+
+    def got(x):
+        if keep2 is not None:
+            keep2.append(x)
+        return x
+
     try:
         if n == "create_search":
             return [1, parse_sid(st.create_new_search())]
         if n == "create_job":
             return [2, parse_jid(st.create_new_job(sid_str(o[1])))]
         if n == "store_job":
-            r = st.store_job(jid_str(o[1]), o[2], mk(o[3]))
+            r = st.store_job(jid_str(o[1]), o[2], give(o[3]))
         elif n == "store_in":
-            r = st.store_job_in(jid_str(o[1]), args=mk(o[2]), kwargs=mk(o[3]))
+            r = st.store_job_in(jid_str(o[1]), args=give(o[2]), kwargs=give(o[3]))
         elif n == "store_out":
-            r = st.store_job_out(jid_str(o[1]), mk(o[2]))
+            r = st.store_job_out(jid_str(o[1]), give(o[2]))
         elif n == "store_status":
             r = st.store_job_status(jid_str(o[1]), o[2])
         elif n == "job_status_set":  # through deephyper.evaluator.Job.status
@@ -230,9 +280,9 @@ def apply_op(st, o, T, keep=None):
             job.status = JobStatus(o[2])
             r = None
         elif n == "store_meta":
-            r = st.store_job_metadata(jid_str(o[1]), o[2], mk(o[3]))
+            r = st.store_job_metadata(jid_str(o[1]), o[2], give(o[3]))
         elif n == "store_sv":
-            r = st.store_search_value(sid_str(o[1]), o[2], mk(o[3]))
+            r = st.store_search_value(sid_str(o[1]), o[2], give(o[3]))
         elif n == "load_sids":
             return [3, [parse_sid(x) for x in st.load_all_search_ids()]]
         elif n == "load_jids":
@@ -250,13 +300,13 @@ def apply_op(st, o, T, keep=None):
                 keep.append([d, canon_out(out), o])
             return out
         elif n == "load_sv":
-            return [5, enc_fval(st.load_search_value(sid_str(o[1]), o[2]), T)]
+            return [5, enc_fval(got(st.load_search_value(sid_str(o[1]), o[2])), T)]
         elif n == "load_meta_all":
-            return [6, [enc_val(x, T) for x in st.load_metadata_from_all_jobs(sid_str(o[1]), o[2])]]
+            return [6, [enc_val(x, T) for x in got(st.load_metadata_from_all_jobs(sid_str(o[1]), o[2]))]]
         elif n == "load_out_all":
-            return [7, [enc_fval(x, T) for x in st.load_out_from_all_jobs(sid_str(o[1]))]]
+            return [7, [enc_fval(x, T) for x in got(st.load_out_from_all_jobs(sid_str(o[1])))]]
         elif n == "load_jobs":
-            d = st.load_jobs([jid_str(j) for j in o[1]])
+            d = got(st.load_jobs([jid_str(j) for j in o[1]]))
             return [10, [[parse_jid(j), enc_rec(r, T)] for j, r in d.items()]]
         elif n == "load_status":
             return [5, enc_fval(st.load_job_status(jid_str(o[1])), T)]
@@ -304,7 +354,7 @@ def canon_out(x):
 
 
 def scribble(x):
-    """Destroy a loaded object in place, at every level."""
+    """Destroy an object in place, at every level (what a careless caller may do to something it passed in or got back)."""
     if isinstance(x, dict):
         for v in list(x.values()):
             scribble(v)
@@ -314,6 +364,11 @@ def scribble(x):
         for v in x:
             scribble(v)
         x.append("scribbled")
+    elif isinstance(x, tuple):
+        for v in x:
+            scribble(v)
+    elif type(x).__module__ == "numpy" and hasattr(x, "fill") and getattr(x, "ndim", 0) > 0:
+        x.fill(7)
 
 
 # ------------------------------------------------------------------ storages
@@ -398,7 +453,7 @@ def expand(case):
             jobs_guess[o[1]] += 1
         if o[0] == "store_sv" and [o[1], o[2]] not in svs:
             svs.append([o[1], o[2]])
-        if o[0] == "scribble":
+        if o[0] in NONMODEL:
             continue
         if (t + 1) % every == 0 or t == len(ops) - 1:
             if mode == "full":
@@ -410,21 +465,35 @@ def expand(case):
     return out
 
 
-def run_impl(st, xops, T):
-    """Returns (outputs aligned with the non-scribble ops, snapshot failures)."""
-    keep, outs_, fails = [], [], []
+def run_impl(st, xops, T, shared=False):
+    """Returns (outputs aligned with the storage operations, failures of the aliasing clauses)."""
+    keep, keep2, handed, outs_, fails, alive = [], [], [], [], [], []
+
+    def edit(objs, o, clause):
+        if objs:
+            i = o[1] % len(objs)
+            before = [canon_out(apply_op(st, a, T)) for a in o[2]]
+            scribble(objs[i][0] if objs is keep else objs[i])
+            objs.pop(i)
+            after = [canon_out(apply_op(st, a, T)) for a in o[2]]
+            if before != after:
+                fails.append(dict(clause=clause, detail=dict(before=before, after=after)))
+
     for is_audit, o in xops:
-        if o[0] == "scribble":
-            if keep:
-                i = o[1] % len(keep)
-                before = [canon_out(apply_op(st, a, T)) for a in o[2]]
-                scribble(keep[i][0])
-                keep.pop(i)
-                after = [canon_out(apply_op(st, a, T)) for a in o[2]]
-                if before != after:
-                    fails.append(dict(clause="snapshot_writeback", detail=dict(before=before, after=after)))
-            continue
-        outs_.append(apply_op(st, o, T, keep))
+        if o[0] == "scribble":        # edit an object obtained from load_job / load_search
+            edit(keep, o, "snapshot_writeback")
+        elif o[0] == "edit_loaded":   # ... from load_jobs / load_search_value / load_out_from_all_jobs / load_metadata_from_all_jobs
+            edit(keep2, o, "loaded_value_aliases_store")
+        elif o[0] == "edit_stored":   # edit an object after it was handed to a store_* method
+            edit(handed, o, "stored_value_aliases_caller")
+        elif o[0] == "repickle":      # the client-side handle goes through pickle in the middle of the history
+            if shared:
+                import pickle
+
+                alive.append(st)  # CPython: proxies of one address share the connection; finalising one closes it under the others
+                st = pickle.loads(pickle.dumps(st))
+        else:
+            outs_.append(apply_op(st, o, T, keep, handed, keep2))
     for obj, was, o in keep:
         tag = 9 if o[0] == "load_search" else 8
         now = canon_out([tag, [[parse_sid(p), enc_rec(r, T)] for p, r in obj.items()]] if tag == 9 else [tag, enc_rec(obj, T)])
@@ -458,21 +527,30 @@ def check_history(case):
 
     T = Tokens(strings_of(case["ops"], set()) | set(case.get("svkeys", [])) | set(case.get("metakeys", [])))
     xops = expand(case)
-    mops = [(a, o) for a, o in xops if o[0] != "scribble"]
+    mops = [(a, o) for a, o in xops if o[0] not in NONMODEL]
     mdata = [op_data(o, T) for _, o in mops]
     m = model()
     mouts = [canon_out(x) for x in m.call(F_RUN, mdata)]
     backends = case.get("backends", ["memory", "shared"])
     # F25: a history that uses one of the names the pinned code keeps in the same dictionary as the user's search values
     internal = any(o[0] in ("store_sv", "load_sv") and o[2] in ("job_id_counter", "data") for o in case["ops"])
-    res = dict(ok=True, kind="oracle", clause="", sig=dict(internal_search_key=internal), nontrivial=False, desc=[])
+    sig = dict(internal_search_key=internal)
+    # F78 / F79: the caller edits an object after handing it to a store, or an object it got from a load other than load_job / load_search
+    for k, name in (("edits_stored", "edit_stored"), ("edits_loaded", "edit_loaded")):
+        if any(o[0] == name for o in case["ops"]):
+            sig[k] = True
+    res = dict(ok=True, kind="oracle", clause="", sig=sig, nontrivial=False, desc=[])
     results = {}
     for b in backends:
         if b == "memory":
             outs_, fails = run_impl(MemoryStorage(), xops, T)
+        elif b == "factory":  # the documented second way to obtain a storage
+            from deephyper.evaluator.storage import Storage
+
+            outs_, fails = run_impl(Storage.create(method="memory"), xops, T)
         else:
             with Shared() as st:
-                outs_, fails = run_impl(st, xops, T)
+                outs_, fails = run_impl(st, xops, T, shared=True)
         results[b] = (outs_, fails)
     first = results[backends[0]][0]
     res["desc"] = describe(case, first)
@@ -481,6 +559,8 @@ def check_history(case):
         outs_, fails = results[b]
         cou = [canon_out(x) for x in outs_]
         # --- oracles on the implementation's outputs (extracted Coq checkers)
+        if fails and fails[0]["clause"] != "snapshot":
+            return dict(res, ok=False, clause=fails[0]["clause"], detail=dict(backend=b, **fails[0]["detail"]))
         if not m.call(F_FRESH, outs_):
             return dict(res, ok=False, clause="fresh_ids", detail=dict(backend=b, ids=[x for x in outs_ if x[0] in (1, 2)]))
         if not m.call(F_EXIST, [[od, x] for od, x in zip(mdata, outs_)]):
@@ -490,11 +570,11 @@ def check_history(case):
         if fails:
             return dict(res, ok=False, clause=fails[0]["clause"], detail=dict(backend=b, **fails[0]["detail"]))
     if len(backends) == 2:
-        a = [canon_out(x) for x in results["memory"][0]]
-        b = [canon_out(x) for x in results["shared"][0]]
+        a = [canon_out(x) for x in results[backends[0]][0]]
+        b = [canon_out(x) for x in results[backends[1]][0]]
         if a != b:
             i = first_diff(a, b)
-            return dict(res, ok=False, clause="same_answers", detail=dict(step=i, op=mops[i][1] if i < len(mops) else None, memory=a[i] if i < len(a) else None, shared=b[i] if i < len(b) else None))
+            return dict(res, ok=False, clause="same_answers", detail=dict(step=i, op=mops[i][1] if i < len(mops) else None, backends=backends, first=a[i] if i < len(a) else None, second=b[i] if i < len(b) else None))
     # --- correspondence with the model
     for b in backends:
         cou = [canon_out(x) for x in results[b][0]]
@@ -578,27 +658,34 @@ def shrink_alpha(case):
 
 
 # ------------------------------------------------------------------ generators: random histories
-KEYPOOL = ["ka", "kb", "kc", "status", "in", "out", "metadata", "intermediate", "budget", "objective", "args", "kwargs", "timestamp_submit"]
+KEYPOOL = ["ka", "kb", "kc", "status", "in", "out", "metadata", "intermediate", "budget", "objective", "args", "kwargs", "timestamp_submit",
+           "", None, 0, 7]   # falsy and non-str keys are legal (Hashable)
 STRPOOL = ["a", "b", "objective", "F", ""]
+ODD = [False, True, 0, {"$f": "0x0.0p+0"}, {"$f": "-0x0.0p+0"}, {"$f": "0x1.8p+1"}, {"$f": "nan"}, {"$f": "inf"}, {"$f": "0x1.fffffffffffffp+1023"},
+       2 ** 70, -(2 ** 63) - 1, 2 ** 53 + 1, {"$nps": ["int64", 3]}, {"$nps": ["float32", 1.5]}, {"$nps": ["bool", False]},
+       {"$np": ["int64", [1, 2, 3]]}, {"$np": ["float64", [[0.0, 1.5], [2.0, -1.0]]]}, {"$np": ["float64", []]},
+       {"$d": [[0, 1], [None, 2], ["", 3]]}, {"$d": []}]
 
 
 def rand_value(rng, depth=0):
     r = rng.random()
     if depth >= 3 or r < 0.35:
         c = rng.random()
-        if c < 0.25:
+        if c < 0.2:
             return None
-        if c < 0.7:
+        if c < 0.55:
             return rng.randint(-3, 40)
+        if c < 0.75:
+            return rng.choice(ODD)
         return rng.choice(STRPOOL)
     if r < 0.6:
         return [rand_value(rng, depth + 1) for _ in range(rng.randint(0, 3))]
     if r < 0.7:
         return {"$t": [rand_value(rng, depth + 1) for _ in range(rng.randint(0, 3))]}
-    return {rng.choice(KEYPOOL): rand_value(rng, depth + 1) for _ in range(rng.randint(0, 3))}
+    return {rng.choice(KEYPOOL[:13]): rand_value(rng, depth + 1) for _ in range(rng.randint(0, 3))}
 
 
-def gen_random(count, maxlen, reserved=False):
+def gen_random(count, maxlen, reserved=False, alias=None):
     svkeys = ["ka", "kb", "values"] + (["job_id_counter", "data"] if reserved else [])
 
     def gen(rng, tier):
@@ -650,8 +737,8 @@ def gen_random(count, maxlen, reserved=False):
                     ops.append(["store_out", some_jid(), rand_value(rng)])
                 elif r < 0.52:
                     ops.append([rng.choice(["store_status", "job_status_set"]), some_jid(), rng.randint(0, 4)])
-                elif r < 0.64:
-                    ops.append(["store_meta", some_jid(), rng.choice(KEYPOOL), rand_value(rng)])
+                elif r < 0.64:  # no integer key here: metadata replaced by a list would be indexed by it
+                    ops.append(["store_meta", some_jid(), rng.choice(KEYPOOL[:15]), rand_value(rng)])
                 elif r < 0.70:
                     ops.append(["store_sv", some_sid(), rng.choice(svkeys), rand_value(rng)])
                 elif r < 0.73:
@@ -666,16 +753,23 @@ def gen_random(count, maxlen, reserved=False):
                     ops.append(["load_meta_all", some_sid(), rng.choice(KEYPOOL)])
                 elif r < 0.91:
                     ops.append(["load_out_all", some_sid()])
-                elif r < 0.94:
+                elif r < 0.935:
                     ops.append(["load_jobs", [some_jid() for _ in range(rng.randint(0, 4))]])
-                elif r < 0.95:
+                elif r < 0.945:
                     ops.append(["load_jids", some_sid()])
+                elif r < 0.955:
+                    ops.append(["repickle"])
+                elif alias and r < 0.99:
+                    aud = []
+                    for s0 in range(min(ns, 3)):
+                        aud += [["load_search", s0], ["load_out_all", s0]] + [["load_sv", s0, k0] for k0 in svkeys[:2]]
+                    ops.append(["edit_stored" if alias == "store" else "edit_loaded", rng.randrange(1000), aud])
                 else:
                     j = some_jid()
                     ops.append(["scribble", rng.randrange(1000), [["load_job", j], ["load_search", j[0]], ["load_jobs", [j]]]])
             # job_status_get raises ValueError for a status outside the enum: only after statuses in range (always here)
-            yield dict(ops=ops, audit="light", every=1 if n <= 25 else rng.choice([3, 7]), backends=["memory", "shared"],
-                       )
+            yield dict(ops=ops, audit="light", every=1 if n <= 25 else rng.choice([3, 7]),
+                       backends=["factory", "shared"] if i % 5 == 2 else ["memory", "shared"])
     return gen
 
 
@@ -690,13 +784,13 @@ def shrink_ops(case):
         if n > 1:
             yield dict(case, ops=ops[:i] + ops[i + 1:])
     for i, o in enumerate(ops):
-        if o[0] in ("store_job", "store_meta", "store_sv") and o[3] != 1:
-            yield dict(case, ops=ops[:i] + [o[:3] + [1]] + ops[i + 1:])
-        if o[0] == "store_out" and o[2] != 1:
-            yield dict(case, ops=ops[:i] + [o[:2] + [1]] + ops[i + 1:])
-    if case.get("backends") == ["memory", "shared"]:
-        yield dict(case, backends=["memory"])
-        yield dict(case, backends=["shared"])
+        if o[0] in ("store_job", "store_meta", "store_sv") and o[3] != [1]:
+            yield dict(case, ops=ops[:i] + [o[:3] + [[1]]] + ops[i + 1:])
+        if o[0] == "store_out" and o[2] != [1]:
+            yield dict(case, ops=ops[:i] + [o[:2] + [[1]]] + ops[i + 1:])
+    if len(case.get("backends", [])) == 2:
+        yield dict(case, backends=[case["backends"][0]])
+        yield dict(case, backends=[case["backends"][1]])
 
 
 # ------------------------------------------------------------------ concurrency
@@ -875,6 +969,8 @@ def gen_concurrent(count, nops, max_clients, nspawn):
         # round-trips it through pickle before use (a real "spawn" start would re-run ./check as __mp_main__)
         for i in range(0 if tier == "search" else nspawn):
             yield dict(nsearch=1, pre=[[0, 1]], scripts=[rand_script(rng, 120, 1, i % 2 == 0) for _ in range(2 + i % 3)], start="fork", pickled=True)
+        for i in range(0 if tier == "search" else 2):
+            yield reader_writer_case(2, 2, 200 + 100 * i)
         for i in range(k):
             nc = rng.randint(2, max_clients) if i else max_clients
             ns = rng.randint(1, 2)
@@ -993,6 +1089,32 @@ def static_lock_facts(cls):
             visit(ch, f2)
 
     visit(tree, None)
+
+    # every public data method runs ENTIRELY under the lock: its body (or the body of its decorator's wrapper) is one `with self.X:`
+    def only_with(fn):
+        body = [n for n in fn.body if not (isinstance(n, ast.Expr) and isinstance(getattr(n, "value", None), ast.Constant))]
+        if len(body) != 1 or not isinstance(body[0], ast.With) or len(body[0].items) != 1:
+            return False
+        e = body[0].items[0].context_expr
+        return isinstance(e, ast.Attribute) and isinstance(e.value, ast.Name) and e.attr in with_names
+
+    sync_decorators = set()
+    for node in tree.body:
+        if isinstance(node, ast.FunctionDef):
+            inner = [n for n in node.body if isinstance(n, ast.FunctionDef)]
+            if len(inner) == 1 and only_with(inner[0]):
+                sync_decorators.add(node.name)
+    wanted = set(data_methods())
+    for node in tree.body:
+        if isinstance(node, ast.ClassDef) and node.name == cls.__name__:
+            for fn in node.body:
+                if isinstance(fn, ast.FunctionDef) and fn.name in wanted:
+                    wanted.discard(fn.name)
+                    decos = [d.id for d in fn.decorator_list if isinstance(d, ast.Name)]
+                    if not (any(d in sync_decorators for d in decos) or only_with(fn)):
+                        bad.append("line %d: %s does not run entirely under the lock (neither a synchronising decorator nor a body that is one `with self.<lock>:`)" % (fn.lineno, fn.name))
+    for m in sorted(wanted):
+        bad.append("%s is not defined in class %s" % (m, cls.__name__))
     return sorted(with_names), bad
 
 
@@ -1280,8 +1402,17 @@ def check_certificate(case):
     return res
 
 
+def reader_writer_case(nwriters=2, nreaders=2, rounds=250):
+    """Writers keep adding NEW keys to their own jobs, readers keep copying the whole search (a copy made outside the lock tears)."""
+    w = [["new", 0]] * 4 + [[["meta", "store"][i % 2], i % 4, "fresh%d" % i, [i]] for i in range(rounds)]
+    r = [["new", 0]] + [["loadsearch", 0], ["outall", 0], ["metaall", 0, "fresh1"], ["listjobs", 0]] * (rounds // 4)
+    return dict(nsearch=1, pre=[[0, 3]], scripts=[w] * nwriters + [r] * nreaders, start="fork", switch=1e-6)
+
+
 def gen_certificate(rng, tier):
     if tier == "search":
+        for i in range(3):
+            yield dict(reader_writer_case(2, 3, 400), type="stress")
         for op in ("create_new_search", "create_new_job"):
             for ka in range(1, 9):
                 for kb in range(1, 11):
@@ -1292,6 +1423,195 @@ def gen_certificate(rng, tier):
             yield dict(type="stress", nsearch=1, pre=[], scripts=[[["new", 0]] * 1500 for _ in range(nc)], start="fork", switch=1e-6)
     else:
         yield dict(type="cert")
+
+
+# ------------------------------------------------------------------ the storage reached through Evaluator / Job
+def make_recorder(inner, T):
+    """A Storage that forwards every call to `inner` and records it, encoded AT THE TIME OF THE CALL, one call at a time."""
+    import threading
+
+    from deephyper.evaluator.storage import Storage
+
+    class Recorder(Storage):
+        def __init__(self):
+            super().__init__()
+            self.inner, self.log, self.mutex = inner, [], threading.RLock()
+            self.connected = True
+
+        def _connect(self):
+            self.connected = True
+
+    def forward(name):
+        def method(self, *args, **kwargs):
+            with self.mutex:  # the recorded order is the order of execution (thread evaluators)
+                try:
+                    r = getattr(self.inner, name)(*args, **kwargs)
+                    self.log.append(list(encode_call(name, args, kwargs, r, None, T)))
+                    return r
+                except Exception as e:
+                    self.log.append(list(encode_call(name, args, kwargs, None, e, T)))
+                    raise
+        return method
+
+    for name in data_methods():
+        setattr(Recorder, name, forward(name))
+    Recorder.__abstractmethods__ = frozenset()
+    return Recorder()
+
+
+def encode_call(name, args, kwargs, r, exc, T):
+    """One recorded call -> (model op, observed output), both in the model's encoding."""
+    import inspect
+
+    from deephyper.evaluator.storage import Storage
+
+    ba = inspect.signature(getattr(Storage, name)).bind(None, *args, **kwargs)
+    ba.apply_defaults()
+    a = dict(ba.arguments)
+    sid = lambda: parse_sid(a["search_id"])
+    jid = lambda: parse_jid(a["job_id"])
+    if exc is not None:
+        out = [11, E_KEY if isinstance(exc, KeyError) else E_TYPE if isinstance(exc, TypeError) else E_ATTR if isinstance(exc, AttributeError) else 9]
+    else:
+        out = None
+    none = [0, []] if r is None else [12, enc_val(r, T)]
+    if name == "create_new_search":
+        return [T_CS], out or [1, parse_sid(r)]
+    if name == "create_new_job":
+        return [T_CJ, sid()], out or [2, parse_jid(r)]
+    if name == "store_job":
+        return [T_SJ, jid(), T.tok(a["key"]), enc_fval(a["value"], T)], out or none
+    if name == "store_job_in":
+        return [T_SIN, jid(), enc_val(a["args"], T), enc_val(a["kwargs"], T)], out or none
+    if name == "store_job_out":
+        return [T_SOUT, jid(), enc_fval(a["value"], T)], out or none
+    if name == "store_job_status":
+        return [T_SSTAT, jid(), enc_fval(a["job_status"], T)], out or none
+    if name == "store_job_metadata":
+        return [T_SMETA, jid(), T.tok(a["key"]), enc_val(a["value"], T)], out or none
+    if name == "store_search_value":
+        return [T_SSV, sid(), T.tok(a["key"]), enc_fval(a["value"], T)], out or none
+    if name == "load_all_search_ids":
+        return [T_LSIDS], out or [3, [parse_sid(x) for x in r]]
+    if name == "load_all_job_ids":
+        return [T_LJIDS, sid()], out or [4, [parse_jid(x) for x in r]]
+    if name == "load_search":
+        return [T_LSEARCH, sid()], out or [9, [[parse_sid(p), enc_rec(x, T)] for p, x in r.items()]]
+    if name == "load_job":
+        return [T_LJOB, jid()], out or [8, enc_rec(r, T)]
+    if name == "load_search_value":
+        return [T_LSV, sid(), T.tok(a["key"])], out or [5, enc_fval(r, T)]
+    if name == "load_metadata_from_all_jobs":
+        return [T_LMETA, sid(), T.tok(a["key"])], out or [6, [enc_val(x, T) for x in r]]
+    if name == "load_out_from_all_jobs":
+        return [T_LOUT, sid()], out or [7, [enc_fval(x, T) for x in r]]
+    if name == "load_jobs":
+        return [T_LJOBS, [parse_jid(j) for j in a["job_ids"]]], out or [10, [[parse_jid(j), enc_rec(x, T)] for j, x in r.items()]]
+    if name == "load_job_status":
+        return [T_LSTAT, jid()], out or [5, enc_fval(r, T)]
+    raise ValueError(name)
+
+
+def ev_run_sync(job):
+    x = job.parameters["x"]
+    md = {"tag": [x, {"n": x}], "zero": 0, "empty": ""}
+    if x % 4 == 1:
+        return {"objective": float(x), "metadata": md}
+    if x % 4 == 2:
+        return {"objective": (float(x), 0.0), "metadata": md}
+    if x % 4 == 3:
+        return 0.0
+    return float(-x)
+
+
+async def ev_run_async(job):
+    return ev_run_sync(job)
+
+
+def check_evaluator(case):
+    """Evaluators (serial / thread) drive the storage; every call they make is recorded and judged like a direct history."""
+    from deephyper.evaluator import Evaluator, HPOJob
+    from deephyper.evaluator.storage import MemoryStorage
+
+    T = Tokens([])
+    m = model()
+    res = dict(ok=True, kind="oracle", clause="", sig=dict(edits_stored=True) if case.get("edit_after_submit") else {}, nontrivial=True,
+               desc=["backend=" + case["backend"]] + ["method=" + r["method"] for r in case["rounds"]])
+
+    def body(inner):
+        rec = make_recorder(inner, T)
+        submitted = []
+        for rnd in case["rounds"]:
+            fn = ev_run_async if rnd["method"] == "serial" else ev_run_sync
+            ev = Evaluator.create(fn, method=rnd["method"], method_kwargs=dict(storage=rec, num_workers=rnd.get("workers", 1)))
+            ev._job_class = HPOJob
+            try:
+                for batch in rnd["batches"]:
+                    cfgs = [{"x": x, "name": "c%d" % x, "nested": {"l": [x]}} for x in batch]
+                    ev.submit(cfgs)
+                    submitted += cfgs
+                    if case.get("edit_after_submit"):
+                        for x in cfgs:  # the caller goes on using (editing) what it submitted
+                            x["nested"]["l"].append("edited")
+                    done = ev.gather("ALL")
+                    for j in done:
+                        _ = j.status
+            finally:
+                ev.close()
+        # final audit through the recorder
+        for sid_ in rec.load_all_search_ids():
+            rec.load_all_job_ids(sid_)
+            rec.load_search(sid_)
+            rec.load_out_from_all_jobs(sid_)
+        return rec.log
+
+    if case["backend"] == "memory":
+        log = body(MemoryStorage())
+    else:
+        with Shared() as st:
+            log = body(st)
+    hist = log
+    res["desc"].append("calls~%d" % (len(hist) // 20 * 20))
+    outs_ = [x for _, x in hist]
+    if not m.call(F_FRESH, outs_):
+        return dict(res, ok=False, clause="fresh_ids", detail=[x for x in outs_ if x[0] in (1, 2)])
+    if not m.call(F_EXIST, hist):
+        return dict(res, ok=False, clause="created_stays", detail=_first_model_diff(m, hist))
+    if not m.call(F_RYW, hist):
+        return dict(res, ok=False, clause="read_your_writes", detail=_first_model_diff(m, hist))
+    d = _first_model_diff(m, hist)
+    if d is not None:
+        return dict(res, ok=False, kind="corr", clause="outputs", detail=d)
+    return res
+
+
+def _first_model_diff(m, hist):
+    mouts = [canon_out(x) for x in m.call(F_RUN, [o for o, _ in hist])]
+    cou = [canon_out(x) for _, x in hist]
+    i = first_diff(cou, mouts)
+    return None if i is None else dict(step=i, op=hist[i][0], impl=cou[i], model=mouts[i])
+
+
+def gen_evaluator(count):
+    def gen(rng, tier):
+        for i in range(count if tier != "search" else 4 * count):
+            rounds = []
+            for _ in range(rng.randint(1, 3)):  # several evaluators (= several searches) on ONE storage
+                rounds.append(dict(method=rng.choice(["serial", "thread"]), workers=rng.randint(1, 4),
+                                   batches=[[rng.randint(0, 30) for _ in range(rng.randint(1, 5))] for _ in range(rng.randint(1, 3))]))
+            yield dict(backend=["memory", "shared"][i % 2], rounds=rounds, edit_after_submit=(i % 4 >= 2))
+    return gen
+
+
+def shrink_evaluator(case):
+    r = case["rounds"]
+    for i in range(len(r)):
+        if len(r) > 1:
+            yield dict(case, rounds=r[:i] + r[i + 1:])
+    for i in range(len(r)):
+        b = r[i]["batches"]
+        if len(b) > 1:
+            yield dict(case, rounds=r[:i] + [dict(r[i], batches=b[:-1])] + r[i + 1:])
 
 
 # ------------------------------------------------------------------ NullStorage (stores nothing; ids must still be unique)
@@ -1329,7 +1649,10 @@ def streams(tier):
         Stream("atomicity_certificate", gen_certificate, check_certificate, None, parallel=False, timeout=900),
         Stream("exhaustive", gen_exhaustive(5 if th else 4, 8000 if th else 1500), check_exhaustive, shrink_alpha, timeout=600),
         Stream("random_histories", gen_random(5000 if th else 1500, 200 if th else 60), check_history, shrink_ops, timeout=120),
+        Stream("aliasing_store", gen_random(1200 if th else 150, 40, alias="store"), check_history, shrink_ops, timeout=120),
+        Stream("aliasing_load", gen_random(1200 if th else 150, 40, alias="load"), check_history, shrink_ops, timeout=120),
         Stream("reserved_search_keys", gen_random(1500 if th else 200, 40, reserved=True), check_history, shrink_ops, timeout=120),
         Stream("concurrent_clients", gen_concurrent(64 if th else 16, 400 if th else 300, 8, 8 if th else 2), check_concurrent, shrink_concurrent, timeout=900),
+        Stream("through_evaluator", gen_evaluator(200 if th else 32), check_evaluator, shrink_evaluator, timeout=300),
         Stream("null_storage", gen_null, check_null, None, timeout=30),
     ]
